@@ -151,3 +151,98 @@ def run_cycle(ctx, cases, known_keys=(), seed_offset=0, corpus=None, tag='cycle'
         rp = ctx.save_replay('cycle-model-line%d.ops' % (ln + 1), '\n'.join(lines[ci[0]:ci[1]]) + '\n')
         t.failures.append(Failure('model', 'cycle line %d `%s`: impl `%s` vs Lean cycle model `%s` (%d mismatching gets)' % (ln + 1, op, a, b, len(bad)), replay=rp))
     return t
+
+
+# ---------------------------------------------------------------------------------------------
+# revision-aware cycle model (`svdriver cyclerev`, Model/CycleRev.lean): reads the seq op file
+# UNCHANGED and answers in the format of `seq run`; compared on ALL requests of ALL revisions
+# (values / panic classes, X/V event multisets, exact event sequences).  The model reproduces
+# the recorded findings kf1 / kf2, so no case is excused here; the oracle is untouched.
+# Corpus of the driver itself: corpus/CYCLEREV/*.ops + *.expected (`svdriver cyclerev`).
+
+def _split_ev(s):
+    p = s.split(' ev=')
+    return p[0], (p[1] if len(p) > 1 else '')
+
+def compare_cycle_rev(ctx, t, tag, events='exact'):
+    """adds the salsa <-> `svdriver cyclerev-cert` comparison of work/seq-<tag>.{ops,impl} to Tie `t`.
+    events: 'exact' (event sequence per request), 'multiset' (X/V multiset per request) or 'none'.
+    The driver also prints the closed-table certificate `certB` of every value answer; by
+    Props/C12Rev.c12rev_exact_if_closed a certified answer of the FIRST revision of a case without
+    `fb` nodes and without `+` is the least fixpoint, by Props/C13Rev.c13rev_reference_if_closed a
+    certified answer of ANY revision of an all-`fb` case is the fallback reference."""
+    ops = os.path.join(ctx.work, 'seq-%s.ops' % tag); imp = os.path.join(ctx.work, 'seq-%s.impl' % tag)
+    mout = os.path.join(ctx.work, 'cyclerev-%s.model' % tag)
+    ctx.run_driver('cyclerev-cert', ops, mout, timeout=3600)
+    with open(ops) as f:
+        lines = f.read().split('\n')
+    with open(imp) as f:
+        ilines = f.read().split('\n')
+    with open(mout) as f:
+        mlines = f.read().split('\n')
+    cs = split_cases(lines)
+    n_cases = n_unsup = n_gets = 0
+    bad = {'value': [], 'xv-multiset': [], 'event-sequence': [], 'uncertified-first-revision': []}
+    cert = {'first_revision_value_answers': 0, 'first_revision_certified': 0,
+            'later_revision_value_answers': 0, 'later_revision_certified': 0,
+            'all_fb_value_answers': 0, 'all_fb_certified_is_fbReference': 0}
+    for (a, b) in cs:
+        n_cases += 1
+        if any(mlines[i] == 'unsupported' for i in range(a, b)):
+            n_unsup += 1
+            continue
+        kinds = [l.split(' ')[2] for l in lines[a:b] if l.startswith('q ')]
+        plus = any(l.startswith('q ') and '+' in l.split(' ')[3:] for l in lines[a:b])
+        lfp_class = 'fb' not in kinds and not plus          # c12rev_exact_if_closed applies
+        fb_class = kinds and all(k == 'fb' for k in kinds)  # c13rev_reference_if_closed applies
+        first = True
+        for i in range(a, b):
+            w = lines[i].split(' ')[0]
+            if w in ('set', 'synth'):
+                first = False
+            if w != 'get':
+                continue
+            n_gets += 1
+            ml = mlines[i]
+            certified = ml.endswith(' cert=1')
+            if ml.endswith(' cert=1') or ml.endswith(' cert=0'):
+                ml = ml[:-7]
+            iv, ie = _split_ev(ilines[i]); mv, me = _split_ev(ml)
+            if iv != mv:
+                bad['value'].append(i)
+            elif events != 'none' and sorted(e for e in ie.split(',') if e[:1] in 'XV') != sorted(e for e in me.split(',') if e[:1] in 'XV'):
+                bad['xv-multiset'].append(i)
+            elif events == 'exact' and ie != me:
+                bad['event-sequence'].append(i)
+            if mv.startswith('v='):
+                if lfp_class:
+                    k = 'first_revision' if first else 'later_revision'
+                    cert[k + '_value_answers'] += 1
+                    cert[k + '_certified'] += certified
+                    if first and not certified:
+                        bad['uncertified-first-revision'].append(i)
+                if fb_class:
+                    cert['all_fb_value_answers'] += 1
+                    cert['all_fb_certified_is_fbReference'] += certified
+    t.info['cyclerev_cases'] = n_cases
+    t.info['cyclerev_cases_outside_model'] = n_unsup
+    t.info['cyclerev_gets_compared'] = n_gets
+    t.info['cyclerev_events'] = events
+    t.info['cyclerev_certificates'] = cert
+    for k, v in bad.items():
+        t.info['cyclerev_%s' % k.replace('-', '_')] = len(v)
+    t.traces_validated += n_cases - n_unsup
+    for k, v in bad.items():
+        for ln in v[:2]:
+            ci = next((c for c in cs if c[0] <= ln < c[1]), None)
+            rp = ctx.save_replay('cyclerev-%s-line%d.ops' % (k, ln + 1), '\n'.join(lines[ci[0]:ci[1]]) + '\n')
+            t.failures.append(Failure('model', 'cyclerev %s, line %d `%s`: impl `%s` vs Lean CycleRev model `%s` (%d such requests)'
+                                      % (k, ln + 1, lines[ln], ilines[ln][:160], mlines[ln][:160], len(v)), replay=rp))
+    return t
+
+def run_cycle_rev(ctx, cases, flavours=None, seed_offset=0, corpus=None, tag='cyclerev', events='exact'):
+    """`vh seq --profile cycle` on real salsa (+ the property oracle, as in run_cycle) and the Lean
+    CycleRev model on the same op file; every request of every revision is compared."""
+    t = run_seq(ctx, 'cycle', cases, seed_offset=seed_offset, corpus=corpus, tag=tag,
+                gen_extra=(['--flavours', flavours] if flavours else []))
+    return compare_cycle_rev(ctx, t, tag, events=events)
